@@ -466,6 +466,7 @@ func main() {
 	timed("C", func() { famC(3) })
 	timed("D", func() { famD(histLens) })
 	timed("G", func() { famG() })
+	timed("H", func() { famH() })
 	// processor seconds (user+system, all threads) spent per family; E and F ride inside A, B and G
 	rep.Extra("cpu_seconds_by_family", cpu)
 	nw := 0
@@ -548,6 +549,10 @@ func replay() {
 		engine.HarnessError("bad case: %v", err)
 	}
 	data, _ := hex.DecodeString(c.Hex)
+	if c.Entry == "deep" {
+		replayDeep(c)
+		return
+	}
 	if strings.HasPrefix(c.Entry, "hist:") {
 		replayHistory(c, data)
 		return
